@@ -20,7 +20,8 @@ def evaluate(ctx, boxes, cfgs):
     mout = C.run_driver("driver", ["ndmap " + " ".join(map(str, sz)) for ty, sz in boxes], timeout_per_line=0.2)
     for cfg in cfgs:
         outs, _ = C.run_lines(exes[("numeric", cfg)], [(f"ndmap {len(sz)} " if ty == "u64" else f"ndmapt {ty} {len(sz)} ") + " ".join(map(str, sz))
-                                                       for ty, sz in boxes], timeout_per_line=0.2)
+                                                       for ty, sz in boxes], timeout_per_line=0.2,
+                              env={"OMP_NUM_THREADS": "4"} if cfg == "omp" else None)
         prev = None
         for (ty, sz), o, m in zip(boxes, outs, mout):
             before, prev = prev, [ty, sz]
@@ -33,7 +34,12 @@ def evaluate(ctx, boxes, cfgs):
                 corr.add_obl("nd_map_set", 1, 1)
                 corr.violation("nd_map_set", f"nd_map over {sz}: {o}", cj, impl=o, oracle_fails=True, key=key, cfg=cfg)
                 continue
-            got = [] if o == "-" else [tuple(map(int, t.split(","))) for t in o.split(";")]
+            try:
+                got = [] if o == "-" else [tuple(map(int, t.split(","))) for t in o.split(";")]
+            except ValueError:        # the harness's own message (callback forms disagree / a callback died) or garbled output
+                corr.add_obl("nd_map_set", 1, 1)
+                corr.violation("nd_map_set", f"nd_map over {sz} ({cfg}): {o[:300]}", cj, impl=o[:600], oracle_fails=True, key=key, cfg=cfg)
+                continue
             want = list(itertools.product(*[range(s) for s in sz]))
             # property oracle: exactly the tuples of the box, each once (multiset equality)
             cg, cw = collections.Counter(got), collections.Counter(want)
@@ -89,7 +95,7 @@ def run(ctx):
                     k = max(range(N), key=lambda j: sz[j]); sz[k] = rnd.choice([1, 2, 16, 20])
                 boxes.append((ty, sz))
         boxes.append((ty, [16, 16])); boxes.append((ty, [20, 20])); boxes.append((ty, [255] if ty == "u8" else [300, 300] if ctx.quick else [300, 300]))
-    return evaluate(ctx, boxes, ["dbg", "rel"])
+    return evaluate(ctx, boxes, ["dbg", "rel", "omp"])
 
 
 def replay(ctx):
